@@ -266,6 +266,11 @@ __CPROVER_ensures(__CPROVER_return_value == 0 || __CPROVER_return_value == S_ERR
 __CPROVER_ensures((S_BC(h) >= 122) == (__CPROVER_return_value == S_ERR_CELL_INVALID))
 __CPROVER_ensures(fijk->face >= 0 && fijk->face <= 19)
 __CPROVER_ensures(__CPROVER_return_value == S_ERR_CELL_INVALID ==> (fijk->face == 0 && fijk->coord.i == 0 && fijk->coord.j == 0 && fijk->coord.k == 0));
+/* the invalid-base-cell clause alone (partial contract: precondition = base-cell number 122..127); cheap, quick tier */
+H3Error _h3ToFaceIjk_badbc(H3Index h, FaceIJK *fijk)
+__CPROVER_requires(__CPROVER_is_fresh(fijk, sizeof(FaceIJK)) && S_BC(h) >= 122)
+__CPROVER_assigns(*fijk)
+__CPROVER_ensures(__CPROVER_return_value == S_ERR_CELL_INVALID && fijk->face == 0 && fijk->coord.i == 0 && fijk->coord.j == 0 && fijk->coord.k == 0);
 H3Error _h3ToFaceIjk_pentbc(H3Index h, FaceIJK *fijk)
 __CPROVER_requires(__CPROVER_is_fresh(fijk, sizeof(FaceIJK)) && S_PENT_BC(S_BC(h)))
 __CPROVER_assigns(*fijk)
